@@ -2,6 +2,7 @@ package props
 
 import (
 	"go/token"
+	"strings"
 
 	"golang.org/x/tools/go/ssa"
 
@@ -29,6 +30,40 @@ func c18() []*Ob {
 		return false
 	}
 	return []*Ob{
+		{Prop: "C18", ID: "C18.6", Engine: "LOCK(publish)", Floor: 2,
+			Desc: "a bucket learns its generation under the cleaner's lock: every call of bucket.SetGeneration in the Cleaner (AddBucket for a new cache, rotate for all of them) is made while Cleaner.mu is held exclusively — AddBucket reading lastGen under the lock and applying it after the unlock lets a rotation slip in between, the older generation then overwrites the newer one in the new cache, and its bytes are accounted to a generation that is dropped as stale: the cleaner sees nothing to clean while the cache grows past the limit",
+			Check: func(c *Ctx) {
+				n := 0
+				for _, fn := range cacheFuncs(c) {
+					if !strings.HasPrefix(FuncName(fn), "(*cache.Cleaner).") {
+						continue
+					}
+					calls := CallsIn(fn, func(cl ssa.CallInstruction) bool {
+						return cl.Common().IsInvoke() && cl.Common().Method.Name() == "SetGeneration"
+					})
+					if len(calls) == 0 {
+						continue
+					}
+					li := Locksets(fn, nil)
+					for _, call := range calls {
+						n++
+						held := false
+						for path, mode := range li.HeldPaths(call.(ssa.Instruction)) {
+							if strings.HasSuffix(path, ".mu") && mode >= 2 {
+								held = true
+							}
+						}
+						if held {
+							c.Site(call.Pos(), "%s sets a bucket's generation under the cleaner lock", FuncName(fn))
+						} else {
+							c.Violation("lock:SetGeneration:"+FuncName(fn), call.Pos(), "%s hands a generation to a bucket without holding Cleaner.mu: a rotation can run between reading lastGen and applying it, and the bucket ends up in the older generation", FuncName(fn))
+						}
+					}
+				}
+				if n == 0 {
+					c.Undecided("lock:SetGeneration:none", 0, "no Cleaner method calls bucket.SetGeneration any more")
+				}
+			}},
 		{Prop: "C18", ID: "C18.1", Engine: "LOCK", Floor: 25,
 			Desc: "lockset: Cache.{payload,maxPayloadSize,currentGeneration,released} under Cache.mu; writes to entry.{value,wg,gen,size,deleted} with a Cache.mu held; Cleaner.buckets under Cleaner.mu, Cleaner.lastGen written under Cleaner.mu",
 			Check: func(c *Ctx) {
